@@ -954,7 +954,8 @@ void init_master (const char *master_file) {
       exit(-1);
     }
 
-  if (master_file[strlen (master_file) - 2] != '.')
+  /* a one character name has no place for a ".c" */
+  if (strlen (master_file) < 2 || master_file[strlen (master_file) - 2] != '.')
     strncat (buf, ".c", sizeof(buf) - strlen(buf) - 1);
 
   new_ob = load_object (buf, 0);
